@@ -10,6 +10,15 @@ claimed = {
  "C13": dict(level="exploration", design="§3", technique="deterministic simulation: seeded operation histories on long-lived objects vs fresh-object reference; lock model decides self-deadlock",
    text="Seeded search over operation histories (add/build/reset/invert/normalize/encode-decode/query, reuse of the three query object types) run as a simulated task; each answer is compared with the same query on fresh objects reaching the same state by the shortest sequence; hangs are decided by the lock model and a step bound, panics are caught.",
    note="Trusted: the reference is the same library on fresh objects, so only history dependence is decided. Structure-dependent conservative predicates are compared only on identical cell lists."),
+ "C15": dict(level="fault_enumeration", design="§4", technique="deterministic simulation of the storage medium: complete single-fault enumeration on stored bytes and read stream + seeded fault sequences, in address-space-capped worker processes",
+   text="For every corpus encoding every truncation, bit flip, byte overwrite, count-field forgery and read error at every offset is applied under two reader shapes, plus seeded multi-fault sequences, splices, random bytes and cross-type decoding; Decode must return, must not panic, abort or stall, and a returned value must survive containment, bounds, edge, cell and re-encode calls.",
+   note="Complete per corpus entry for single faults; the corpus itself is sampled. 'Rejected before allocation' is observed through the 6 GiB address-space cap of the workers. Wall-clock stall limit 40 s."),
+ "C09": dict(level="fault_enumeration", design="§5", technique="deterministic simulation of the stream: every failing write call and every crash offset enumerated per value; benign reader behaviours enumerated/drawn; seeded value generation (plain workload generation for the value space)",
+   text="Encode->simulated medium->Decode: under benign chunking/EOF/zero-read/ByteReader behaviour the decoded value must be bit-identical, answer identically and re-encode identically; for every write call and every byte offset a failing write / crash must never be acknowledged as success. The value space (the property's own quantifier) is only sampled by a steered generator.",
+   note="The stream clause is decided by enumeration; the value quantifier is sampled. Bit-identity is judged through the public API plus reflection on depth/hasHoles."),
+ "C03": dict(level="exploration", design="§5b", technique="seeded call histories on one EdgeCrosser vs a stateless reference model and an exact-arithmetic model (history clause only; partial claim)",
+   text="PARTIAL: decides only that the incremental crosser answers like the stateless test in any call order (chained, restarted, mixed, both constructors); exactness and symmetry are checked on the visited quadruples only. There is no fault or schedule dimension for this type.",
+   note="The universal exactness clause and the vertex-crossing rule are pure functions of four points and are not claimed."),
 }
 na = {
  "C01": "Pure integer/float arithmetic on cell ids and points; lookup tables are filled once in package init before any caller exists; no I/O, shared mutable state, clock or fault surface for a scheduler or fault injector to vary.",
@@ -29,11 +38,7 @@ na = {
  "C20": "Pure function of (geometry, tolerance, projection/snap parameters).",
 }
 # properties not yet claimed but planned: listed N/A until their check exists, so the manifest is always truthful
-pending = {
- "C15": "check not built yet in this commit (planned: Decode under stored-byte and stream faults, DESIGN §4)",
- "C09": "check not built yet in this commit (planned: Encode->medium->Decode through faulty streams, DESIGN §5)",
- "C03": "check not built yet in this commit (planned: EdgeCrosser call histories vs stateless model, DESIGN §5b)",
-}
+pending = {}
 import os
 have = set(claimed)
 for k in list(pending):
